@@ -1,6 +1,35 @@
 (* C01 - Scanning is total.  Engine: for ANY registry whose searchers return (no raise, no hang) hits that are non-empty and in bounds, the scan returns a tree for every input, node and integer depth; a raising / hanging searcher makes the scan raise / hang (nothing is swallowed), and the in-bounds precondition is necessary (C01_needs_bounds).  Decoders: END-TO-END never-raise theorems for the shipped decoders (regex-shape facts discharged by vm_compute of a verified exploration on the regex terms regenerated from the source).  The read-only views (flatten, iteration, string_summary, node_to_dict) are total Gallina functions by construction; their only partial Python primitives (slicing, hex, repr) are total in Python too.  Statements pinned by harness/mkprop.py. *)
-From MD Require Import Lib.Base Model.Node Model.Engine Model.EngineR Model.Reference Model.Dec.ReLib Model.Dec.EscDec Model.Dec.Shell Model.Dec.Carets Model.Dec.B64Hex Model.Dec.PathDec.
-From MD Require Import Proofs.EngineRefine Proofs.EngineDepth Proofs.EngineTotal Proofs.CaretsProofs Proofs.Shapes1 Proofs.Shapes2.
+From MD Require Import Lib.Base Model.Node Model.Engine Model.EngineR Model.Reference Model.Dec.ReLib Model.Dec.EscDec Model.Dec.Shell Model.Dec.Carets Model.Dec.B64Hex Model.Dec.PathDec Model.Dec.Network Model.Registry Model.Default.
+From MD Require Import Generated.RegistryTable.
+From MD Require Import Proofs.EngineRefine Proofs.EngineDepth Proofs.EngineTotal Proofs.CaretsProofs Proofs.Shapes1 Proofs.Shapes2 Proofs.Shapes3 Proofs.DefaultTotal.
+
+(* THE WHOLE SHIPPED REGISTRY: for every input, every integer depth limit, every keyword directory and any answers of the two external tools, the scan of the default registry (all decoder functions the source marks for registration - the generated table decoder_modules, checked by vm_compute against the modelled names - plus the keyword searchers) never raises: it returns a tree, or the model's regex matcher ran out of fuel (Hang) *)
+Theorem C01_scan_default_never_raises : forall (pe_size : bytes -> Z) (xortool : bytes -> list bytes) (extra : label -> option (bytes -> res (list node))), (forall b : bytes, 0 <= pe_size b) -> forall (kwdir : dtree) (depth : Z) (data : bytes), scan_default pe_size xortool extra decoder_modules kwdir depth data = Hang \/ (exists t : node, scan_default pe_size xortool extra decoder_modules kwdir depth data = Ok t).
+Proof. exact scan_default_never_raises. Qed.
+Print Assumptions C01_scan_default_never_raises.
+
+Theorem C01_scan_default_no_raise : forall (pe_size : bytes -> Z) (xortool : bytes -> list bytes) (extra : label -> option (bytes -> res (list node))) (kwdir : dtree) (depth : Z) (data : bytes) (e : label), scan_default pe_size xortool extra decoder_modules kwdir depth data <> Raise e.
+Proof. exact scan_default_no_raise. Qed.
+Print Assumptions C01_scan_default_no_raise.
+
+(* every searcher of the registry, for any include / exclude selection: Hang, or Ok with hits ending inside the value *)
+Theorem C01_registry_ok : forall (pe_size : bytes -> Z) (xortool : bytes -> list bytes) (extra : label -> option (bytes -> res (list node))) (kwdir : dtree) (inc exc : list label), Forall dec_ok (registry pe_size xortool extra decoder_modules kwdir inc exc).
+Proof. exact registry_ok. Qed.
+Print Assumptions C01_registry_ok.
+
+Theorem C01_every_registered_decoder_is_modelled : forallb (fun n : list N => existsb (beqb n) modelled_names) (concat (map snd decoder_modules)) = true.
+Proof. exact registered_names_modelled_b. Qed.
+Print Assumptions C01_every_registered_decoder_is_modelled.
+
+(* the engine needs only the END of each hit to lie inside the value (known finding F6 reports end < start: harmless for totality) *)
+Theorem C01_engine_total_weak : forall search : list N -> list node, (forall (v : list N) (h : node), In h (search v) -> nonempty_val h = true -> n_en h <= blen v) -> forall (d : nat) (n : node), exists t : node, scan_node search d n = Ok t.
+Proof. exact scan_node_total_weak. Qed.
+Print Assumptions C01_engine_total_weak.
+
+(* a Raise / Hang of the scan is the Raise / Hang of some registry call: the engine adds neither *)
+Theorem C01_engine_failure_origin : forall searchr : bytes -> res (list node), (forall (v : bytes) (hs : list node), searchr v = Ok hs -> forall h : node, In h hs -> nonempty_val h = true -> n_en h <= blen v) -> forall (d : nat) (n : node), origin searchr (scan_node_r searchr d n).
+Proof. exact scan_node_r_failure_origin. Qed.
+Print Assumptions C01_engine_failure_origin.
 
 (* pure registry: wf_search -> every scan returns a tree *)
 Theorem C01_engine_total : forall search : bytes -> list node, wf_search search -> forall (depth : Z) (data : bytes), exists t : node, scan search depth data = Ok t.
@@ -122,6 +151,22 @@ Print Assumptions C01_library_total.
 Theorem C01_path_total : forall data : bytes, find_path data = Hang \/ (exists nodes : list node, find_path data = Ok nodes /\ Forall (hit_node_ok Regexes.RE_path_PATH_RE (s2b "path") data) nodes).
 Proof. exact find_path_total. Qed.
 Print Assumptions C01_path_total.
+
+Theorem C01_urls_total : forall (tlds : list bytes) (data : bytes), find_urls tlds data = Hang \/ (exists nodes : list node, find_urls tlds data = Ok nodes /\ Forall (NetworkProofs.url_node_ok tlds data) nodes).
+Proof. exact find_urls_total. Qed.
+Print Assumptions C01_urls_total.
+
+Theorem C01_emails_total : forall (tlds : list bytes) (data : bytes), find_emails tlds data = Hang \/ (exists nodes : list node, find_emails tlds data = Ok nodes /\ Forall (email_node_total_ok tlds data) nodes).
+Proof. exact find_emails_total. Qed.
+Print Assumptions C01_emails_total.
+
+Theorem C01_ips_total : forall data : bytes, find_ips data = Hang \/ (exists nodes : list node, find_ips data = Ok nodes /\ Forall (NetworkProofs.ip_node_ok data) nodes).
+Proof. exact find_ips_total. Qed.
+Print Assumptions C01_ips_total.
+
+Theorem C01_domains_total : forall (tlds root_fpos tld_fpos : list bytes) (data : bytes), find_domains tlds root_fpos tld_fpos data = Hang \/ (exists nodes : list node, find_domains tlds root_fpos tld_fpos data = Ok nodes /\ Forall (NetworkProofs.domain_node_ok tlds data) nodes).
+Proof. exact find_domains_total. Qed.
+Print Assumptions C01_domains_total.
 
 Example C01_example :
   scan_r (run_all [find_xml_hex; find_chr; find_cmd_strings]) 10 (L"abc^" ++ [13]%N) = Ok (root_node (L"abc^" ++ [13]%N)).
